@@ -112,10 +112,13 @@ def render_method(m, is_trait=False, body=None):
     out = []
     for a in m.get("pre_attrs", []):
         out.append("    #[%s]" % a)
+    # the forwarded attributes may be written above or below the sv::msg attribute: their position is not part of the meaning
+    fwd = ["    #[sv::attr(%s)]" % f for f in m.get("fwd", [])]
+    split = len(fwd) if m.get("fwd_before_msg") == "all" else (1 if m.get("fwd_before_msg") else 0)
+    out += fwd[:split]
     if m.get("msg"):
         out.append("    " + render_msg_attr(m["msg"]))
-    for f in m.get("fwd", []):
-        out.append("    #[sv::attr(%s)]" % f)
+    out += fwd[split:]
     kind = m["msg"]["kind"] if m.get("msg") else None
     ctx = m.get("ctx_ty") or (CTX[kind] if kind else None)
     params = ["&self"]
